@@ -242,4 +242,9 @@ let () = register "c16.fixes" (fun _ ->
   Printf.sprintf "const=%s union=%s fun=%s cont=%s" (b01 deployed.fx_const) (b01 deployed.fx_union)
     (b01 deployed.fx_fun) (b01 deployed.fx_cont))
 
+(* server-level leg (harness/legs_c16.go c16.server): the real server on a comment block with a malformed line against the
+   real server on the same block with that line turned into a remark; there is no model of the glue after
+   ParseCommentFragment (hover / completion), the demanded observable "=" is a constant (like c08.query) *)
+let () = register "c16.server" (fun _ -> "=\t=\t-")
+
 let () = main ()
